@@ -1,12 +1,12 @@
 //! C01 - true sensitivity never exceeds the calibrated clip bound (DESIGN 3, C01).
 //! Coupled executions of the pre-noise relation on D and on D minus one unit.
 use crate::budget;
-use crate::engine::{DrawMode, DrawPlan, ResultSet};
+use simcommon::engine::{DrawMode, DrawPlan, ResultSet};
 use crate::ir::{self, NoiseMap};
 use crate::oracle::*;
 use crate::owners;
 use crate::pipeline;
-use crate::scenario::{Scenario, TableSpec};
+use simcommon::scenario::{Scenario, TableSpec};
 use qrlew::differential_privacy::DpEvent;
 use qrlew::relation::{Relation, Variant as _};
 use serde_json::json;
